@@ -40,6 +40,165 @@ def build_package(spec):
     return Package(mods, exts)
 
 
+class ImplRaised(Exception):
+    """An encoding step (or building the package) raised inside hugr-py: becomes an observation, never a crash."""
+    def __init__(self, stage, exc):
+        Exception.__init__(self, stage, type(exc).__name__)
+        self.stage, self.cls = stage, type(exc).__name__
+
+
+def impl(stage, f):
+    try:
+        return f()
+    except Exception as e:             # every exception class is an observation
+        raise ImplRaised(stage, e)
+
+
+def fresh_module(tag):
+    from hugr import tys
+    from hugr.build.function import Module
+    m = Module()
+    f = m.define_function("added_%s" % tag, [tys.Bool])
+    f.set_outputs(*f.inputs())
+    return m.hugr
+
+
+def fresh_ext(tag):
+    from hugr import ext
+    return ext.Extension("added.x%s" % tag, ext.Version(1, 0, 0))
+
+
+def apply_mut(pkg, mut, k):
+    """One change of a package object through public API (k = position in the history, for fresh names).
+    Total: an index is taken modulo the current length, a change that needs a module/extension when there
+    is none appends one instead (so shrunk histories stay meaningful)."""
+    from hugr import tys, ops, ext
+    kind, idx = mut[0], (mut[1] if len(mut) > 1 else 0)
+    mods, exts = pkg.modules, pkg.extensions
+    if kind in ("meta", "addnode") and not mods:
+        kind = "appmod"
+    if kind == "exttype" and not exts:
+        kind = "appext"
+    if kind == "meta":                 # metadata of a module root (non-ASCII value)
+        h = mods[idx % len(mods)]
+        h[h.root].metadata["note%d" % k] = "résumé_%d_\U0001F600" % k
+    elif kind == "addnode":            # a module keeps being built after the package was made
+        h = mods[idx % len(mods)]
+        h.add_node(ops.FuncDecl("decl%d_é" % k, tys.PolyFuncType([], tys.FunctionType([tys.Bool], [tys.Qubit]))),
+                   parent=h.root)
+    elif kind == "appmod":
+        mods.append(fresh_module(k))
+    elif kind == "insmod":
+        mods.insert(0, fresh_module(k))
+    elif kind == "popmod":
+        if mods:
+            mods.pop(idx % len(mods))
+        else:
+            mods.append(fresh_module(k))
+    elif kind == "revmods":            # order is part of the promise; a no-op on < 2 distinct modules
+        if len(mods) < 2:
+            mods.append(fresh_module(k))
+        mods.reverse()
+    elif kind == "appext":
+        exts.append(fresh_ext(k))
+    elif kind == "insext":
+        exts.insert(0, fresh_ext(k))
+    elif kind == "popext":
+        if exts:
+            exts.pop(idx % len(exts))
+        else:
+            exts.append(fresh_ext(k))
+    elif kind == "exttype":            # an extension held by the package gets another type definition
+        e = exts[idx % len(exts)]
+        e.add_type_def(ext.TypeDef("Added%d" % k, "straße", [], ext.ExplicitBound(tys.TypeBound.Copyable)))
+    else:
+        raise AssertionError(mut)
+
+
+MUT_KINDS = ["meta", "addnode", "appmod", "insmod", "popmod", "revmods", "appext", "insext", "popext", "exttype"]
+
+
+def run_history(spec, steps, encode=True):
+    """Builds the package of `spec` and performs `steps` on that ONE object.  steps: ["mut", kind, idx] |
+    ["enc", how, cfgmode, zstd] with how in bytes/str/json, cfgmode in new/shared/default (shared: one
+    EnvelopeConfig object whose zstd field is assigned before each use; default: no config argument).
+    With encode=False the encodings are skipped (a fresh, never-encoded object with the same contents).
+    Returns (package, result of the last encoding or None)."""
+    import warnings
+    from hugr.envelope import EnvelopeConfig, EnvelopeFormat
+    pkg = impl("build", lambda: build_package(spec))
+    shared = EnvelopeConfig(format=EnvelopeFormat.JSON, zstd=None)
+    out = None
+    for k, st in enumerate(steps):
+        if st[0] == "mut":
+            impl("mutate", lambda: apply_mut(pkg, st[1:], k))
+            continue
+        if not encode:
+            continue
+        _, how, mode, z = st
+        if mode == "shared":
+            shared.zstd = z
+            cfg = (shared,)
+        elif mode == "default":
+            cfg = ()
+        else:
+            cfg = (EnvelopeConfig(format=EnvelopeFormat.JSON, zstd=z),)
+        if how == "bytes":
+            out = impl("to_bytes", lambda: pkg.to_bytes(*cfg))
+        elif how == "str":
+            out = impl("to_str", lambda: pkg.to_str(*cfg))
+        else:                           # deprecated to_json: not an envelope, only primes whatever is cached
+            with warnings.catch_warnings():
+                warnings.simplefilter("ignore")
+                impl("to_json", lambda: pkg.to_json())
+    return pkg, out
+
+
+def step_zstd(st):
+    return None if st[2] == "default" or st[1] != "bytes" else st[3]
+
+
+def norm_steps(steps):
+    """Histories end in an envelope encoding; to_str only uncompressed (compressed bytes are not text)."""
+    steps = [list(s) for s in steps]
+    for s in steps:
+        if s[0] == "enc" and s[1] != "bytes":
+            s[3] = None
+    while steps and not (steps[-1][0] == "enc" and steps[-1][1] in ("bytes", "str")):
+        steps.pop()
+    return steps
+
+
+def rand_history(rng, levels):
+    steps = []
+    for _ in range(rng.randint(2, 6)):
+        if rng.random() < 0.5:
+            steps.append(["mut", rng.choice(MUT_KINDS), rng.randint(0, 3)])
+        else:
+            steps.append(["enc", rng.choice(["bytes", "bytes", "str", "json"]),
+                          rng.choice(["new", "shared", "default"]), rng.choice(levels)])
+    steps.append(["enc", rng.choice(["bytes", "bytes", "str"]), rng.choice(["new", "shared", "default"]),
+                  rng.choice(levels)])
+    return norm_steps(steps)
+
+
+def shrink_spec(sp):
+    for i in range(len(sp["modules"])):
+        yield {"modules": sp["modules"][:i] + sp["modules"][i + 1:], "exts": sp["exts"]}
+        for j in range(len(sp["modules"][i])):
+            m = sp["modules"][i]
+            yield {"modules": sp["modules"][:i] + [m[:j] + m[j + 1:]] + sp["modules"][i + 1:], "exts": sp["exts"]}
+            if m[j] != "f":
+                yield {"modules": sp["modules"][:i] + [m[:j] + ["f"] + m[j + 1:]] + sp["modules"][i + 1:],
+                       "exts": sp["exts"]}
+    for i in range(len(sp["exts"])):
+        yield {"modules": sp["modules"], "exts": sp["exts"][:i] + sp["exts"][i + 1:]}
+        n, t, o, d = sp["exts"][i]
+        for e2 in ([n, [], o, d] if t else None, [n, t, [], d] if o else None, [n, t, o, "f"] if d != "f" else None):
+            if e2:
+                yield {"modules": sp["modules"], "exts": sp["exts"][:i] + [e2] + sp["exts"][i + 1:]}
+
+
 def docs(pkg):
     return ([m._to_serial().model_dump_json() for m in pkg.modules],
             [e._to_serial().model_dump_json() for e in pkg.extensions])
@@ -83,12 +242,40 @@ class C09(fw.Prop):
             "non-BMP), zstd levels None/0/1/3/19/22/-5/-50, to_bytes/to_str/from_bytes/from_str; mutated "
             "envelopes (truncations, magic/format/flag byte changes, flag bit flipped, payload swapped); "
             "EXHAUSTIVE run of EnvelopeHeader.from_bytes over all 2^16 (format, flags) pairs and every "
-            "prefix of an envelope.  non-trivial = compressed, non-ASCII, empty package, or malformed input")
+            "prefix of an envelope (every exception class recorded); every truncation 0..14 of valid envelopes through "
+            "Package.from_bytes (plain, compressed) and Package.from_str; histories on ONE package object / ONE "
+            "config object (to_bytes/to_str/to_json, then metadata / node / module-list / extension-list / "
+            "extension changes or a changed config, then encode again) whose last envelope is compared with a "
+            "fresh never-encoded object of the same contents.  non-trivial = compressed, non-ASCII, empty "
+            "package, malformed input, or a history")
     trusted = ["zstd (pyzstd) and pydantic's JSON text codec are oracles: inverse laws are Section hypotheses of "
                "C09_envelope_roundtrip; their answers on each case (decompress succeeds, parsed documents equal "
                "the original's) are observed by the harness and fed to the model",
                "MODULE / MODULE_WITH_EXTS cannot be encoded offline (native hugr._hugr absent); decoding them "
                "is modelled (ValueError)"]
+
+    def corpus(self, ctx):
+        """Minimised triggers, run first on every run."""
+        one = {"modules": [["f"]], "exts": []}
+        bare = {"modules": [[]], "exts": []}
+        empty = {"modules": [], "exts": []}
+        cs = []
+        # a header cut to 8 / 9 bytes (right magic, no flags / no format byte) is a ValueError, for every decoder
+        cs.append({"kind": "trunc", "spec": bare, "zstd": None})
+        for n in (8, 9):
+            cs.append({"kind": "read", "spec": bare, "zstd": None, "mut": ["trunc", n]})
+            cs.append({"kind": "readstr", "spec": bare, "zstd": None, "mut": ["trunc", n]})
+        # an object that was encoded before and changed since encodes its CURRENT contents
+        cs.append({"kind": "seq", "spec": one, "steps": [["enc", "bytes", "new", None], ["mut", "addnode", 0],
+                                                         ["enc", "bytes", "new", None]]})
+        cs.append({"kind": "seq", "spec": one, "steps": [["enc", "json", "new", None], ["mut", "appmod", 0],
+                                                         ["enc", "str", "default", None]]})
+        cs.append({"kind": "seq", "spec": empty, "steps": [["enc", "bytes", "shared", None], ["mut", "appext", 0],
+                                                           ["enc", "bytes", "shared", 0]]})
+        # payloads zstd cannot shrink; Latin-1 / non-BMP text
+        cs.append({"kind": "read", "spec": empty, "zstd": 0, "mut": ["none"]})
+        cs.append({"kind": "read", "spec": {"modules": [["café"]], "exts": []}, "zstd": None, "mut": ["none"]})
+        return cs
 
     def generate(self, rng, tier, ctx):
         cases = [{"kind": "sweep"}]
@@ -111,13 +298,63 @@ class C09(fw.Prop):
                 cases.append({"kind": "str", "spec": sp, "fmt": f, "zstd": rng.choice(levels)})
             if i < 6 or rng.random() < 0.1:
                 cases.append({"kind": "trunc", "spec": sp, "zstd": rng.choice(levels)})
+        # (round 2) every truncation 0 .. header + 4 of valid envelopes, through every decoder: Package.from_bytes
+        # (plain and compressed), Package.from_str; plus truncations of envelopes whose format byte is another
+        # known one (the decoder must still look at the length first)
+        for sp in specs[:4] + specs[-2:]:
+            for lvl in (None, 0):
+                for cut in range(0, 15):
+                    cases.append({"kind": "read", "spec": sp, "zstd": lvl, "mut": ["trunc", cut]})
+            for cut in range(0, 15):
+                cases.append({"kind": "readstr", "spec": sp, "zstd": None, "mut": ["trunc", cut]})
+        for fb in (1, 2, 0):
+            for cut in range(8, 12):
+                cases.append({"kind": "read", "spec": specs[1], "zstd": None, "mut": ["fmtcut", fb, cut]})
+        # (round 2) histories on one package object / one config object: encode, change, encode again
+        nh = 60 if tier == "quick" else 600
+        hspecs = specs[:4] + specs[4:][: max(8, nh // 6)]
+        for kind in MUT_KINDS:                       # the minimal shape for every kind of change, each encoder
+            for how, mode, z in (("bytes", "new", None), ("bytes", "shared", 0), ("str", "default", None)):
+                cases.append({"kind": "seq", "spec": rng.choice(hspecs), "steps": norm_steps(
+                    [["enc", rng.choice(["bytes", "str", "json"]), mode, None], ["mut", kind, rng.randint(0, 3)],
+                     ["enc", how, mode, z]])})
+        for _ in range(nh):
+            cases.append({"kind": "seq", "spec": rng.choice(hspecs), "steps": rand_history(rng, levels)})
         return cases
 
+    # -- observation ------------------------------------------------------------------------------------
     def observe(self, case, ctx):
+        try:
+            return self.observe_inner(case, ctx)
+        except ImplRaised as e:
+            return {"raised": e.cls, "stage": e.stage}
+
+    @staticmethod
+    def read_obs(env, d, decode):
+        """Oracle answers for the byte string `env` and the outcome class of decoding it."""
+        import pyzstd
+        import hugr._serialization.extension as ext_s
+        body = env[10:]
+        try:
+            dec = pyzstd.decompress(body)
+        except Exception:
+            dec = None
+
+        def parse(b):
+            if b is None:
+                return None
+            try:
+                p = ext_s.Package.model_validate_json(b).deserialize()
+                return docs(p) == d
+            except Exception:
+                return None
+        return {"input": list(env), "dec_ok": dec is not None, "pp": parse(body), "pd": parse(dec),
+                "obs": classify(decode, d)}
+
+    def observe_inner(self, case, ctx):
         import pyzstd
         from hugr.envelope import EnvelopeConfig, EnvelopeFormat, EnvelopeHeader, MAGIC_NUMBERS
         from hugr.package import Package
-        import hugr._serialization.extension as ext_s
         k = case["kind"]
         if k == "sweep":
             acc, nve, nother = [], 0, 0
@@ -131,20 +368,41 @@ class C09(fw.Prop):
                     except Exception:
                         nother += 1
             return {"accepted": acc, "nve": nve, "nother": nother}
-        pkg = build_package(case["spec"])
+        if k == "seq":
+            steps = case["steps"]
+            last = steps[-1]
+            assert last[0] == "enc" and last[1] in ("bytes", "str"), steps
+            pkg, out = run_history(case["spec"], steps)
+            # the reference: a fresh object with the same contents that was never encoded
+            twin, _ = run_history(case["spec"], steps, encode=False)
+            d = impl("twin", lambda: docs(twin))
+            payload = impl("twin", lambda: twin._to_serial().model_dump_json().encode("utf-8"))
+            z = step_zstd(last)
+            comp = pyzstd.compress(payload, z) if z is not None else b""
+            if last[1] == "str":
+                assert isinstance(out, str)
+                env = out.encode("utf-8")
+                r = self.read_obs(env, d, lambda: Package.from_str(out))
+            else:
+                env = bytes(out)
+                r = self.read_obs(env, d, lambda: Package.from_bytes(env))
+            r.update({"payload": list(payload), "compressed": list(comp), "envelope": list(env)})
+            return r
+        pkg = impl("build", lambda: build_package(case["spec"]))
         d = docs(pkg)
         cfg = EnvelopeConfig(format=EnvelopeFormat.JSON, zstd=case.get("zstd"))
         if k == "make":
             payload = pkg._to_serial().model_dump_json().encode("utf-8")
             comp = pyzstd.compress(payload, cfg.zstd) if cfg.zstd is not None else b""
-            env = pkg.to_bytes(cfg)
+            env = impl("to_bytes", lambda: pkg.to_bytes(cfg))
             return {"payload": list(payload), "compressed": list(comp), "envelope": list(env)}
         if k == "str":
             cfg = EnvelopeConfig(format=EnvelopeFormat[case["fmt"]], zstd=case["zstd"])
             utf8 = True
             if case["fmt"] == "JSON":
+                raw = impl("to_bytes", lambda: pkg.to_bytes(cfg))
                 try:
-                    pkg.to_bytes(cfg).decode("utf-8")
+                    raw.decode("utf-8")
                 except UnicodeDecodeError:
                     utf8 = False
             def f():
@@ -155,52 +413,47 @@ class C09(fw.Prop):
         if k == "readstr":
             if cfg.zstd is not None:
                 return {"skip": True}
-            s = pkg.to_str(cfg)
-            return {"obs": classify(lambda: Package.from_str(s), d), "input": list(s.encode("utf-8"))}
+            s = impl("to_str", lambda: pkg.to_str(cfg))
+            m = case.get("mut", ["none"])
+            if m[0] == "trunc":
+                s = s[:m[1]]
+            return self.read_obs(s.encode("utf-8"), d, lambda: Package.from_str(s))
         if k == "trunc":
-            env = pkg.to_bytes(cfg)[:40]
-            lens, nve = [], 0
+            env = impl("to_bytes", lambda: pkg.to_bytes(cfg))[:40]
+            lens, others, nve = [], [], 0
             for n in range(len(env) + 1):
                 try:
                     EnvelopeHeader.from_bytes(env[:n])
                     lens.append(n)
                 except ValueError:
                     nve += 1
-            return {"envelope": list(env), "lens": lens, "nve": nve}
+                except Exception as e:           # any other class is an observation, not a crash
+                    others.append([n, type(e).__name__])
+            return {"envelope": list(env), "lens": lens, "others": others, "nve": nve}
         if k == "read":
-            env = bytearray(pkg.to_bytes(cfg))
+            env = bytearray(impl("to_bytes", lambda: pkg.to_bytes(cfg)))
             m = case["mut"]
             if m[0] == "trunc":
                 env = env[:m[1]]
             elif m[0] == "byte":
                 env[m[1]] = m[2]
+            elif m[0] == "fmtcut":
+                env[8] = m[1]
+                env = env[:m[2]]
             elif m[0] == "flipz":
                 env[9] ^= 1
             elif m[0] == "garbage":
                 env = bytearray(ctx_bytes(m[1]))
             env = bytes(env)
-            body = env[10:]
-            try:
-                dec = pyzstd.decompress(body)
-            except Exception:
-                dec = None
-
-            def parse(b):
-                if b is None:
-                    return None
-                try:
-                    p = ext_s.Package.model_validate_json(b).deserialize()
-                    return docs(p) == d
-                except Exception:
-                    return None
-            return {"input": list(env), "dec_ok": dec is not None, "pp": parse(body), "pd": parse(dec),
-                    "obs": classify(lambda: Package.from_bytes(env), d)}
+            return self.read_obs(env, d, lambda: Package.from_bytes(env))
         raise AssertionError(k)
 
     def literal(self, case, obs, ctx):
         k = case["kind"]
         gz = lambda z: gopt(None if z is None else gN(z + LEVEL_OFFSET))
         gob = lambda x: gopt(None if x is None else gbool(x))
+        if "raised" in obs:
+            return gapp("CRaised", gout("Other:" + obs["raised"]))
         if k == "sweep":
             return gapp("CSweep", glist(gpair(gN(a), gN(b), gpair(gN(c), gbool(z))) for a, b, c, z in obs["accepted"]),
                         gN(obs["nve"]), gN(obs["nother"]))
@@ -209,17 +462,24 @@ class C09(fw.Prop):
         if k == "str":
             return gapp("CStr", case["fmt"], gz(case["zstd"]), gbool(obs["utf8"]), gout(obs["obs"]))
         if k == "trunc":
-            return gapp("CTrunc", gbytes(obs["envelope"]), glist(gnat(n) for n in obs["lens"]), gnat(obs["nve"]))
+            return gapp("CTrunc", gbytes(obs["envelope"]), glist(gnat(n) for n in obs["lens"]),
+                        glist(gnat(n) for n, _ in obs["others"]), gnat(obs["nve"]))
         if k == "readstr":
             if obs.get("skip"):
                 return gapp("CStr", "JSON", "None", "true", "(OOk true)")
-            return gapp("CRead", "true", gbytes(obs["input"]), "false", "(Some true)", "None", gout(obs["obs"]))
+            return gapp("CRead", gbool(case.get("mut", ["none"])[0] == "none"), gbytes(obs["input"]),
+                        gbool(obs["dec_ok"]), gob(obs["pp"]), gob(obs["pd"]), gout(obs["obs"]))
         if k == "read":
             return gapp("CRead", gbool(case["mut"][0] == "none"), gbytes(obs["input"]), gbool(obs["dec_ok"]),
                         gob(obs["pp"]), gob(obs["pd"]), gout(obs["obs"]))
+        if k == "seq":
+            hist = glist("HMut" if st[0] == "mut" else gapp("HEnc", gbool(st[1] == "str"), gz(step_zstd(st)))
+                         for st in case["steps"] if st[0] == "mut" or st[1] in ("bytes", "str"))
+            return gapp("CSeq", hist, gbytes(obs["payload"]), gbytes(obs["compressed"]), gbytes(obs["envelope"]),
+                        gbool(obs["dec_ok"]), gob(obs["pp"]), gob(obs["pd"]), gout(obs["obs"]))
 
     def nontrivial(self, case, obs):
-        if case["kind"] in ("sweep", "trunc"):
+        if case["kind"] in ("sweep", "trunc", "seq"):
             return True
         if case.get("zstd") is not None or case.get("mut", ["none"])[0] != "none":
             return True
@@ -234,14 +494,37 @@ class C09(fw.Prop):
         return {"input": case, "observed": o}
 
     def signature(self, case, obs, ctx):
+        if isinstance(obs, dict) and "raised" in obs:
+            return "envelope:" + case["kind"] + ":raised"
+        if case["kind"] == "seq":
+            return "envelope:seq:" + case["steps"][-1][1]
         return "envelope:" + case["kind"] + ":" + str(case.get("mut", [""])[0])
+
+    def shrink(self, case):
+        k = case["kind"]
+        if k == "seq":
+            st = case["steps"]
+            for i in range(len(st) - 1):
+                yield dict(case, steps=st[:i] + st[i + 1:])
+            for i, x in enumerate(st):
+                if x[0] == "enc" and (x[2] != "new" or x[3] is not None):
+                    yield dict(case, steps=norm_steps(st[:i] + [[x[0], x[1], "new", None]] + st[i + 1:]))
+                if x[0] == "mut" and x[2] != 0:
+                    yield dict(case, steps=st[:i] + [[x[0], x[1], 0]] + st[i + 1:])
+        if "spec" in case:
+            for sp in shrink_spec(case["spec"]):
+                yield dict(case, spec=sp)
+        if k in ("make", "read", "readstr", "trunc") and case.get("zstd") not in (None, 0):
+            yield dict(case, zstd=0)
 
     def distribution(self, cases, observations):
         d = {}
         for c, o in zip(cases, observations):
             key = c["kind"] + (":" + c["mut"][0] if "mut" in c else "")
+            if c["kind"] == "seq":
+                key = "seq:%d-steps:last=%s" % (len(c["steps"]), c["steps"][-1][1])
             d.setdefault(key, {})
-            ob = o.get("obs", "-") if isinstance(o, dict) else "-"
+            ob = o.get("obs", o.get("raised", "-")) if isinstance(o, dict) else "-"
             d[key][ob] = d[key].get(ob, 0) + 1
         return d
 
